@@ -1145,3 +1145,52 @@ def _gen_step(variant):
 
 _gen_step('inverse')
 _gen_step('eigen')
+
+
+@gen('kfac.base_preconditioner:BaseKFACPreconditioner.memory_usage')
+def _gen_mem(rng, model):
+    from kfac.base_preconditioner import BaseKFACPreconditioner
+    p = trained_precond(rng)
+    if rng.random() < 0.5:
+        p._vp_model.zero_grad()
+        p._vp_model(p._vp_x).sum().backward()
+    return Case(BaseKFACPreconditioner.memory_usage, {'self': p}, [p], {}, note=f'after {p.steps} steps')
+
+
+@gen('kfac.preconditioner:KFACPreconditioner.__init__')
+def _gen_kfac_ctor(rng, model):
+    world = rng.choice([1, 1, 2, 3, 4])
+    seed = rng.randrange(1 << 30)
+
+    def build(rank, world):
+        import random
+        import torch
+        from kfac.preconditioner import KFACPreconditioner
+        from kfac.enums import DistributedStrategy, ComputeMethod, AssignmentStrategy
+        r = random.Random(seed)
+        torch.manual_seed(seed % 1000)
+        m = _rand_tree(r)
+        kw = {'model': m}
+        opt = lambda k, vals: kw.__setitem__(k, r.choice(vals)) if r.random() < 0.6 else None      # noqa: E731
+        divs = [k / world for k in range(1, world + 1) if world % k == 0]
+        opt('grad_worker_fraction', [DistributedStrategy.COMM_OPT, DistributedStrategy.HYBRID_OPT, DistributedStrategy.MEM_OPT,
+                                     0, 1, 0.5, 1.5, -0.1, 0.3] + divs + divs)
+        opt('compute_method', [ComputeMethod.EIGEN, ComputeMethod.INVERSE, 'eigen', 'inverse'])
+        opt('assignment_strategy', [AssignmentStrategy.COMPUTE, AssignmentStrategy.MEMORY, 'compute', 'memory'])
+        opt('colocate_factors', [True, False])
+        opt('compute_eigenvalue_outer_product', [True, False])
+        opt('allreduce_bucket_cap_mb', [25.0, 0, 0.001, -1])
+        opt('symmetry_aware', [True, False])
+        opt('skip_layers', [[], ['fc1'], ['Linear'], ['^Conv']])
+        obj = KFACPreconditioner.__new__(KFACPreconditioner)
+        args = dict(kw)
+        args.pop('model')
+
+        def call(self, model, **k):
+            return KFACPreconditioner.__init__(self, model, **k)
+        return Case(call, {'self': obj, 'model': m, '__kwargs__': kw}, [obj, m], args,
+                    note=f'world {world}: ' + ', '.join(f'{a}={b}' for a, b in args.items()))
+    if world == 1:
+        class _Single:
+            pass
+    return MultiRankCase(world, build, note=f'world {world}, seed {seed}')
